@@ -3,6 +3,8 @@ package main
 import (
 	"context"
 	"encoding/json"
+	"errors"
+	"fmt"
 	"runtime"
 	"strings"
 	"time"
@@ -136,7 +138,120 @@ func startCall(ctx context.Context, cli *mqtt.BaseClient, kind string, tag int) 
 
 var reqPkt = map[string]string{"pub1": "PUBLISH", "pub2": "PUBLISH", "sub": "SUBSCRIBE", "unsub": "UNSUBSCRIBE", "ping": "PINGREQ", "disconnect": "DISCONNECT"}
 
+// runBlockRetry: location retryWaitComp.  A QoS 2 Publish gets its PUBREC and writes PUBREL, then the connection is
+// closed by the peer: the error carries the retry handle of the PUBREL stage.  The handle is run on a second connection
+// with a context of its own while the context of the original call stays alive; the broker never sends PUBCOMP.
+func runBlockRetry(sc *BlockCase, res *BlockResult) {
+	root, rootCancel := context.WithTimeout(context.Background(), 8*time.Second)
+	defer rootCancel()
+	w1 := netsim.NewWorld(netsim.Plan{})
+	w1.ManualAcks = true
+	cli1, _ := w1.Dial(root)
+	t1 := w1.Conn(1)
+	defer cli1.Close()
+	if _, err := cli1.Connect(root, "blocking"); err != nil {
+		res.Note = "connect: " + err.Error()
+		return
+	}
+	first := startCall(root, cli1, "pub2", 1)
+	if !waitFor(func() bool { return countWrites(w1.Rec, "PUBLISH") >= 1 }, 2*time.Second) {
+		res.Note = "PUBLISH not written"
+		return
+	}
+	id := 0
+	for _, e := range w1.Rec.Snapshot() {
+		if e["e"] == "Write" && e["p"] == "PUBLISH" {
+			id = e["id"].(int)
+		}
+	}
+	w1.Send(t1, netsim.Ack(0x50, id))
+	if !waitFor(func() bool { return countWrites(w1.Rec, "PUBREL") >= 1 }, 2*time.Second) {
+		res.Note = "PUBREL not written"
+		return
+	}
+	t1.PeerClose()
+	var er mqtt.ErrorWithRetry
+	select {
+	case r := <-first:
+		if !errors.As(r.err, &er) {
+			res.Note = "no retry handle: " + fmt.Sprint(r.err)
+			return
+		}
+	case <-time.After(2 * time.Second):
+		res.Note = "interrupted Publish did not return"
+		return
+	}
+	w2 := netsim.NewWorld(netsim.Plan{})
+	w2.ManualAcks = true
+	w2.NoPingResp = true
+	cli2, _ := w2.Dial(root)
+	t2 := w2.Conn(1)
+	defer cli2.Close()
+	if _, err := cli2.Connect(root, "blocking"); err != nil {
+		res.Note = "connect 2: " + err.Error()
+		return
+	}
+	var cctx context.Context
+	var ccancel context.CancelFunc
+	if sc.Cause == "ctxDeadline" {
+		cctx, ccancel = context.WithTimeout(root, 60*time.Millisecond)
+	} else {
+		cctx, ccancel = context.WithCancel(root)
+	}
+	defer ccancel()
+	ret := make(chan callRet, 1)
+	go func() {
+		err := er.Retry(cctx, cli2)
+		ret <- callRet{err, time.Now()}
+	}()
+	res.Steered = waitFor(func() bool { return countWrites(w2.Rec, "PUBREL") >= 1 }, 2*time.Second)
+	if !res.Steered {
+		return
+	}
+	t0 := time.Now()
+	switch sc.Cause {
+	case "ctxCancel":
+		ccancel()
+	case "localClose":
+		cli2.Close()
+	case "peerClose":
+		t2.PeerClose()
+	case "malformed":
+		t2.SendRaw([]byte{0xF0, 0x00}, "reserved-type")
+	}
+	select {
+	case r := <-ret:
+		res.Returned = true
+		res.Res = netsim.ErrClass(r.err)
+		res.DtMs = int(r.at.Sub(t0) / time.Millisecond)
+	case <-time.After(2 * time.Second):
+		res.Res = "timeout"
+		res.DtMs = 2000
+	}
+	if sc.Done {
+		if dch := cli2.Done(); dch != nil {
+			select {
+			case <-dch:
+				res.DoneClosed = true
+			case <-time.After(2 * time.Second):
+			}
+		}
+	}
+	rootCancel()
+	cli2.Close()
+	if !res.Returned {
+		select {
+		case <-ret:
+		case <-time.After(3 * time.Second):
+		}
+	}
+}
+
 func runBlockBase(sc *BlockCase, res *BlockResult) {
+	if sc.L == "retryWaitComp" {
+		runBlockRetry(sc, res)
+		return
+	}
 	plan := netsim.Plan{}
 	if sc.L == "connectWrite" {
 		plan.Writes = []netsim.FaultRule{{K: 1, O: "cutBefore"}}
